@@ -179,11 +179,11 @@ Ltac inv_some := match goal with H : Some _ = Some _ |- _ => inversion H; subst;
 (* all projections and setters of the state *)
 Ltac simp :=
   cbn [evq cnt towake sel total ispan pc cbit inl kern ares jst aw acur kpc earm kw tok nextb opc oco ocbit odis ounw ofin opay
-       oto odl opdl ocall oalld ob ocur oev ojres fi ostash now nexta nexte tops bots botd sent byield epush epop ernd dpush dpop
+       oto odl opdl ocall oalld ob ocur oev ojres fi ostash owk now nexta nexte tops bots botd sent byield epush epop ernd dpush dpop
        olast rer rerp oleft
        set_evq set_cnt set_towake set_sel set_total set_ispan set_pc set_cbit set_inl set_kern set_ares set_jst set_aw set_acur
        set_kpc set_earm set_kw set_tok set_nextb set_opc set_oco set_ocbit set_odis set_ounw set_ofin set_opay set_oto set_odl
-       set_opdl set_ocall set_oalld set_ob set_ocur set_oev set_ojres set_fi set_ostash set_now set_nexta set_nexte set_tops
+       set_opdl set_ocall set_oalld set_ob set_ocur set_oev set_ojres set_fi set_ostash set_owk set_now set_nexta set_nexte set_tops
        set_bots set_botd set_sent set_byield set_epush set_epop set_ernd set_dpush set_dpop set_olast set_rer set_rerp set_oleft
        wpc wkpc negb andb orb] in *.
 
